@@ -6,6 +6,7 @@ import Nstd.Str.LemmasQuery
   reference functions applied to the abstract values.
 -/
 namespace Nstd.Str
+open Spec (splitRef splitOut)
 
 /-- `find(const char* str)` is `strstr` on the value of the variable -/
 theorem findS_eq {s s' : St} (h : Inv s) {v : Nat} (hv : v < s.n) {needle : List Nat} {r : Option Nat}
